@@ -297,4 +297,7 @@ def run(chk):
     from verif import narrow
     narrow.run_offwidth(chk, "C08")
 
+    from verif import fallthrough
+    fallthrough.run(chk, "C08", floor=4)
+
     chk.assumptions += ["header widths are joined with the writer via rules/C07.header_sums (T-agree between modules)"]
